@@ -25,6 +25,22 @@ COMPONENT = 'singleton'
 QUICK = dict(gen=4000, exh_len=5, exh_prov=4)
 THOROUGH = dict(gen=40000, exh_len=6, exh_prov=5)
 
+SOURCE_IMPORTS = ['ScalesModel.Model.Shared']
+_RC_VARS = {'self._ref_count': 'count', 'opens': 'opens', 'closes': 'closes'}
+_RC_GHOST = {'self.next_sink.Open()': 'opens', 'self.next_sink.Close()': 'closes'}
+# RefCountedSink.Open / Close translated from the current source on every run (harness/pytrans.py): the reference
+# count and the number of Open()/Close() calls that reach the underlying sink (ghost counters), as functions of
+# the state before; the obligations say that the hand-written model step is exactly that, for every state
+SOURCE_SITES = [
+    dict(name='genRcOpenCount', file='scales/sink.py', func='RefCountedSink.Open', kind='final', var='self._ref_count',
+         varmap=_RC_VARS, ghost=_RC_GHOST, params=['count', 'opens', 'closes'], obligation='open Scales.Shared'),
+    dict(name='genRcOpenOpens', file='scales/sink.py', func='RefCountedSink.Open', kind='final', var='opens',
+         varmap=_RC_VARS, ghost=_RC_GHOST, params=['count', 'opens', 'closes'], obligation='theorem genRcOpen_eq (s : RC) (h : Nat) :\n    ((s.step (.ropen h)).1.count : Int) = genRcOpenCount s.count s.opens s.closes ∧\n    ((s.step (.ropen h)).1.opens : Int) = genRcOpenOpens s.count s.opens s.closes ∧\n    (s.step (.ropen h)).1.closes = s.closes := by\n  unfold RC.step genRcOpenCount genRcOpenOpens\n  by_cases hc : s.count + 1 = 1\n  · have : ((s.count : Int) + 1 = 1) := by omega\n    simp [hc, this]\n  · have : ¬ ((s.count : Int) + 1 = 1) := by omega\n    simp [hc, this]\n'),
+    dict(name='genRcCloseCount', file='scales/sink.py', func='RefCountedSink.Close', kind='final', var='self._ref_count',
+         varmap=_RC_VARS, ghost=_RC_GHOST, params=['count', 'opens', 'closes'], obligation=''),
+    dict(name='genRcCloseCloses', file='scales/sink.py', func='RefCountedSink.Close', kind='final', var='closes',
+         varmap=_RC_VARS, ghost=_RC_GHOST, params=['count', 'opens', 'closes'], obligation="theorem genRcClose_eq (s : RC) (h : Nat) :\n    ((s.step (.rclose h)).1.count : Int) = genRcCloseCount s.count s.opens s.closes ∧\n    ((s.step (.rclose h)).1.closes : Int) = genRcCloseCloses s.count s.opens s.closes ∧\n    (s.step (.rclose h)).1.opens = s.opens := by\n  unfold RC.step genRcCloseCount genRcCloseCloses\n  by_cases h0 : s.count = 0\n  · simp [h0]\n  · have h0' : ¬ ((s.count : Int) = 0) := by omega\n    by_cases h1 : s.count - 1 = 0\n    · have : ((s.count : Int) - 1 = 0) := by omega\n      simp [h0, h0', h1, this]\n    · have : ¬ ((s.count : Int) - 1 = 0) := by omega\n      simp [h0, h0', h1, this]; omega\n"),
+]
 TRUSTED = [
     'contract of an underlying sink as implemented by the harness sink (and by the socket transports and the '
     'test mocks): Idle until its open completes, Open() idempotent while an open result exists, Close()/fault '
